@@ -16,7 +16,8 @@ HASH_SENSITIVE = False
 CONTAINERS = ['list', 'tuple', 'dict', 'Dict', 'dictattr', 'OrderedDict']
 LEAF_KINDS = ['sleep', 'task', 'future', 'done', 'twostage', 'shared', 'nested', 'imm', 'custom', 'dep', 'gen']
 DELAYS = [0, 0, 1, 1, 2, 5, 3600]
-PLAIN = [None, 0, 1, 'x', 2.5, True, {'special': 'future_class'}, {'special': 'handle_class'}]
+PLAIN = [None, 0, 1, 'x', 2.5, True, {'special': 'future_class'}, {'special': 'handle_class'}, {'special': 'nparray'}, {'special': 'nparray0'},
+         {'special': 'series'}, {'special': 'frame'}]
 
 
 class _HandleClass:
@@ -25,11 +26,36 @@ class _HandleClass:
         return iter(())
 
 
+_ARRAYS = {}
+
+
 def _plain(v):
     if isinstance(v, dict) and 'special' in v:
         import asyncio as _a
-        return _a.Future if v['special'] == 'future_class' else _HandleClass
+        k = v['special']
+        if k in ('nparray', 'nparray0', 'series', 'frame'):
+            # data whose truth value is ambiguous / that compares element-wise: plain data like any other
+            if k not in _ARRAYS:
+                import numpy as np
+                import pandas as pd
+                _ARRAYS[k] = (np.array([1.0, 2.0, 3.0]) if k == 'nparray' else np.array([]) if k == 'nparray0' else pd.Series([1.0, 2.0]) if k == 'series'
+                              else pd.DataFrame({'a': [1.0, 2.0]}))
+            return _ARRAYS[k]
+        return _a.Future if k == 'future_class' else _HandleClass
     return v
+
+
+def _is_arr(a):
+    import numpy as np
+    import pandas as pd
+    return isinstance(a, (np.ndarray, pd.Series, pd.DataFrame))
+
+
+def _arr_same(a, b):
+    import numpy as np
+    if a is b:
+        return True
+    return type(a) is type(b) and a.shape == b.shape and bool(np.all(np.asarray(a) == np.asarray(b)))
 FAULTS = ['leaf_raise', 'leaf_cancel', 'outer_cancel', 'slow_leaf']
 
 
@@ -54,6 +80,7 @@ def generate(st):
         'tuple_keys': sw.random() < 0.25,
         'giant': (sw.random() < (0.01 if getattr(st, 'deep', False) else 0.001)),     # a container with hundreds of plain members          # containers with many members
         'shared_containers': sw.random() < 0.3,      # the caller refills the SAME container objects and waits again
+        'kwcall': sw.random() < 0.2,                 # waiter(value=...) instead of waiter(...)
     }
     leaves = []
     made = []
@@ -511,6 +538,13 @@ def execute(trace, ctx=None):
 
     box = {}
 
+    def wcall(v):
+        # the two documented call forms: positional and by the parameter's name
+        if trace['cfg'].get('kwcall'):
+            res.probe('called-by-keyword')
+            return waiter(value=v)
+        return waiter(v)
+
     async def main():
         value = build(structure)
         box['built'] = True
@@ -524,7 +558,7 @@ def execute(trace, ctx=None):
             # the first attempt may fail (an awaitable raises or is cancelled); the caller catches that, refills the
             # same containers with fresh awaitables and waits again: the second attempt must be right
             try:
-                r1 = await waiter(value)
+                r1 = await wcall(value)
                 box['r1_failed'] = False
             except (SimLeafError, asyncio.CancelledError) as e_:
                 if isinstance(e_, asyncio.CancelledError) and loop.main_task.cancelling():
@@ -552,9 +586,9 @@ def execute(trace, ctx=None):
             recording['on'] = False
             value2 = refill(structure)
             box['round2'] = True         # from here on nothing is faulty any more: the second attempt must succeed
-            r2 = await waiter(value2)
+            r2 = await wcall(value2)
             return ('two-rounds', None, r2)
-        r1 = await waiter(value)
+        r1 = await wcall(value)
         if rounds == 2:
             box['exp1'] = expected(structure)
             box['r1_ok'] = _same(r1, box['exp1'])
@@ -564,7 +598,7 @@ def execute(trace, ctx=None):
             objs.clear(); done_events.clear()
             recording['on'] = False
             value2 = refill(structure)
-            r2 = await waiter(value2)
+            r2 = await wcall(value2)
             res.probe('second-round-on-same-containers')
             return ('two-rounds', r1, r2)
         return r1
@@ -588,7 +622,7 @@ def execute(trace, ctx=None):
     res.sim_time = loop.time()
     kind, val = outcome
     exp = expected(structure) if box.get('built') else None
-    if kind == 'ok' and isinstance(val, tuple) and len(val) == 3 and val[0] == 'two-rounds':
+    if kind == 'ok' and isinstance(val, tuple) and len(val) == 3 and isinstance(val[0], str) and val[0] == 'two-rounds':
         if not box.get('r1_ok'):
             res.violation = {'cls': 'wrong-result', 'msg': 'first round: got %s expected %r' % (box.get('r1_repr'), box['exp1']), 'step': None}
             res.obs = ['two-rounds-first']
@@ -677,6 +711,8 @@ def _same(a, b, skip=None, structure=None, leaves=None):
         return _same_skip(a, structure, leaves, skip)
     if type(a) is not type(b):
         return False
+    if _is_arr(a):
+        return _arr_same(a, b)
     if isinstance(a, (list, tuple)):
         return len(a) == len(b) and all(_same(x, y) for x, y in zip(a, b))
     if isinstance(a, dict):
@@ -690,6 +726,8 @@ def _same_skip(val, node, leaves, skip):
         return True          # compared at its first occurrence
     if t == 'plain':
         pv = _plain(node['v'])
+        if _is_arr(pv):
+            return _arr_same(val, pv)
         return type(val) is type(pv) and val == pv
     if t == 'leaf':
         i = node['i']
